@@ -51,6 +51,67 @@ CHECKS = {
    "Trusted: the Vec<bool> model in vcore::bitmodel (20 lines). Derived-length operations are called only within their precondition "
    "(offset <= 8*len). Nothing is asserted about slice content after Err.",
    "5/C11"),
+
+ "C04": ("vrt",
+   "property-based fuzzing (proptest byte / fault generators, shrinking) of the three decoders with no-panic, over-read, allocation-bound and watchdog oracles",
+   "UperReader and ProtobufReader for every type of the compiled zoo and the DER reader primitives are fed random byte strings with a random declared bit length and valid encodings of generated values carrying 1..3 faults (truncate to a bit, flip, insert, delete, overwrite with boundary bytes, duplicate a chunk). Per case: no panic, position <= declared length, same result when all bits beyond the declared length are flipped and bytes appended, peak allocation <= 64 MiB + 64 KiB x input bytes (counting global allocator), no case over 10 s (confirmed 3x in isolation). Sampled exploration; coverage-guided libFuzzer targets extend it in the thorough tier.",
+   "A hang is reported as violation only after three isolated confirmations; otherwise exit 2. Allocation bound is the harness's reading of 'bounded'.",
+   "5/C04"),
+ "C07": ("vfront",
+   "grammar-based property testing (proptest): print an abstract module, parse + resolve it, compare canonical projections",
+   "Abstract modules of the front-end profile (every supported type kind nested up to 2 levels, four tag classes, ranges with MIN/MAX/extension, named numbers and bits, SIZE incl. MAX/extension, ENUMERATED numbers/markers, OPTIONAL/DEFAULT literals, value assignments, value references, IMPORTS, OIDs) are printed in the plain and one random whitespace layout; canon(resolve(parse(tokenize(text)))) == canon(A) with only the documented normalisations.",
+   "Trusted: the printer and canon (vcore::print / canon), cross-checked by C13 and C12 using the same printer with different oracles. WITH COMPONENTS and other unsupported syntax are not generated.",
+   "5/C07"),
+ "C08": ("vfront",
+   "property-based round trip of the generated #[asn(..)] attributes through the macro parser (part a, proptest) + comparison of compiled descriptor constants with the abstract schema (part b)",
+   "Part a: generated modules -> to_rust = M; the emitted Rust file is parsed with syn, every #[asn(..)] item is re-read by proc_macro::parse_asn_definition and compared with M (asn1rs's PartialEq) modulo documented derived tags. Part b (vrt): every compiled zoo type is walked with a recording Reader; kind, MIN/MAX/EXTENSIBLE, STD_OPTIONAL_FIELDS/FIELD_COUNT/EXTENDED_AFTER_FIELD, VARIANT_COUNT/STD_VARIANT_COUNT, integer width, OPTIONAL/DEFAULT wrapping and visiting order == abstract schema.",
+   "Part b sees only constants that reach a visitor; TAG is covered by C16 part a. Item-name collisions fall under the open C09 findings.",
+   "5/C08"),
+ "C09": ("vfront",
+   "property-based testing with rustc as oracle: generated modules are compiled (cargo check, offline) through asn_to_rust!, failures minimised per module",
+   "Generated front-end-profile modules with an identifier pool containing every Rust keyword, prelude-like names and hyphen variants, every DEFAULT literal kind, value references, plus a sample of the zoo. A module accepted by the in-process front end must compile: one crate with one file per module is cargo-checked against the current tree, JSON diagnostics are mapped back to modules, failing modules removed and the batch re-checked until clean; each failing module is then greedily minimised.",
+   "Slow oracle (rustc): the quick tier covers ~150 modules per run. Eight open findings exclude their shapes by construction (probed on every run).",
+   "5/C09"),
+ "C12": ("vfront",
+   "metamorphic property testing (proptest): literal module vs. referencing variant across all load orders, plus negative variants",
+   "A random subset of the literal sites of a generated module is replaced by value references assigned before/after the use or in 1..3 sibling modules imported by name, by OID or both; for every load order into MultiModuleResolver (and try_resolve) the resolved definitions equal those of the literal module. Negative variants (missing assignment, removed import with a same-named symbol elsewhere, exporter not loaded, wrong value type) must give Err for every load order.",
+   "Load orders are enumerated completely up to 4 modules.",
+   "5/C12"),
+ "C13": ("vfront",
+   "metamorphic property testing (proptest) over token layouts with comments; token-sequence, model and Location oracles",
+   "Generated modules are printed as lexical items; a layout picks a separator per boundary from {empty, blank, tab, LF, CRLF, CR, line / block / nested block comments with varied text and adjacency}. Token sequence and resolved model must equal those of the plain layout and (ASCII) each token's Location must equal the line/column where the printer put it.",
+   "Location columns are compared for ASCII layouts only (non-ASCII comments are generated but only token/model equality is judged there).",
+   "5/C13"),
+ "C14": ("vfront",
+   "mutation-based fuzzing of the front end (proptest edit generators over valid texts + token soups) with a no-panic / error-location oracle and watchdog",
+   "Generator output and the literal modules of /repo/tests receive 1..4 token- or character-level edits (delete, duplicate, swap, insert, replace, truncate, over-long number, open comment) or are replaced by token soups; Tokenizer -> Model::try_from -> try_resolve / MultiModuleResolver -> to_rust -> to_protobuf must return Ok or Err: no panic (except the documented unclosed-comment panic on a really unterminated '/*'), error tokens inside the input, no case over 10 s.",
+   "Sampled; coverage-guided libFuzzer target extends it in the thorough tier.",
+   "5/C14"),
+ "C15": ("vfront",
+   "bounded-exhaustive enumeration of INTEGER constraints over a boundary family with an independent width/sign oracle",
+   "All ordered pairs from B = {0, +-1, +-2^k, +-2^k+-1 (k<=63)} U [-20,20] as (min..max) and (min..max,...), every b as (b..MAX), (MIN..b) and extensible forms, plus INTEGER / (MIN..MAX): as top-level definition and as SEQUENCE field through tokenizer, parser, resolver, to_rust and RustCodeGenerator; Rust type, model bounds and generated *_min()/*_max() bodies == oracle.",
+   "Exhaustive over the stated family only. (MIN..ub) non-extensible is an open finding pinned by a repository test.",
+   "5/C15"),
+ "C16": ("vfront",
+   "bounded-exhaustive permutation testing on the macro expansion (part a) + property-based differential testing of compiled SET types against the reference codec (part b)",
+   "Part a: for generated multisets of 2..5 components (four tag classes, untagged builtin types, untagged references to tagged/untagged definitions/CHOICE/SEQUENCE, with/without extension marker) ALL root permutations are printed as SET, expanded through asn_to_rust -> syn -> parse_asn_definition -> expand; write_seq/read_seq order and TAG constants == own X.680 8.6 implementation. Part b (vrt): a compiled family in three permutations each; UPER bits and presence-bit order == reference codec.",
+   "Extension additions are generated with tags ascending in textual order (where canonical order and order of definition coincide).",
+   "5/C16"),
+ "C17": ("vrt",
+   "property-based round trip (proptest) over the compiled zoo with proto3 default-equivalence normalisation; growable vs. slice writer differential",
+   "For every compiled zoo type and generated values (integer extremes of every width/sign, out-of-root extensible values, CHOICE in CHOICE, NULL, BIT STRING, empty strings/lists, present default-ish optionals): ProtobufWriter::default() bytes == ProtobufWriter::from(&mut [u8]) bytes with an exactly sized slice; a slice one byte short gives Err; ProtobufReader returns the value up to pnorm (present optional == Rust default of its type is absent).",
+   "pnorm mirrors ProtobufEq. Nested lists and lists as CHOICE alternatives are open findings (excluded, probed).",
+   "5/C17"),
+ "C18": ("vrt",
+   "property-based differential testing: independent proto3 parser/validator on generated .proto files (part a, protoc as second opinion) + independent schema-directed wire decoder on the writer's bytes (part b)",
+   "Part a (vfront): generated modules -> .proto of ProtobufDefGenerator -> own proto3 parser: syntax, unique names/numbers incl. oneof members and the oneof's own name, legal numbers, first enum value 0, references exist, no repeated-in-oneof / repeated repeated, valid package. Part b: for every compiled zoo type the .proto of its module is parsed and the bytes ProtobufWriter produced for generated values are decoded by an independent wire decoder that takes field numbers, scalar types, repeated-ness, oneof membership, enum numbers and nesting from the .proto only; undeclared numbers, wrong wire types, several oneof members are violations; decoded value == written value after pnorm.",
+   "Components are paired with declared fields by name (case/punctuation-insensitive), by position where names do not pair up. BIT STRING uses asn1rs's bytes+bit-count convention. Top-level ENUMERATED has no message. 32-bit varints are truncated as a conforming parser does.",
+   "5/C18"),
+ "C19": ("vrt",
+   "differential testing of two feature builds of the same runner on proptest-generated valid, faulty and random inputs",
+   "A vector file (zoo type, bytes, bit length) of valid encodings, 1..3-fault mutations and random bytes is decoded by vdiff built from the current tree with default features and with descriptive-deserialize-errors; Ok(value hash)/Err(kind+payload)/reader position tables must be identical line by line.",
+   "Backtraces and the descriptive scope trace are excluded from the comparison by design (they are what the feature adds).",
+   "5/C19"),
 }
 
 NOT_YET = {
@@ -90,8 +151,12 @@ def main():
         "engines": [
             {"name": "vprim", "path": "/verif/engine/vprim", "serves_properties": ["C10", "C11", "C20"],
              "kind_free_text": "Rust binary using proptest + bounded-exhaustive enumeration against models/reference primitives; runs its body in 16 worker processes"},
-            {"name": "vrt", "path": "/verif/engine/vrt", "serves_properties": ["C01", "C02", "C03", "C04", "C05", "C06", "C16", "C17", "C18", "C19"],
-             "kind_free_text": "Rust binary over a type zoo compiled from generated ASN.1 through asn_to_rust! (zoogen -> zoo crates); proptest value strategies, reference X.691 codec, bridges over the public Reader/Writer traits"},
+            {"name": "vrt", "path": "/verif/engine/vrt", "serves_properties": ["C01", "C02", "C03", "C04", "C05", "C06", "C08", "C16", "C17", "C18", "C19"],
+             "kind_free_text": "Rust binary over a type zoo compiled from generated ASN.1 through asn_to_rust! (zoogen -> zoo crates); proptest value strategies, reference X.691 codec, independent protobuf decoder, bridges over the public Reader/Writer traits; part b of the two-part checks C08/C16/C18"},
+            {"name": "vfront", "path": "/verif/engine/vfront", "serves_properties": ["C07", "C08", "C09", "C12", "C13", "C14", "C15", "C16", "C18"],
+             "kind_free_text": "Rust binary driving the front end in-process (tokenizer, parser, resolver, to_rust, code generator, attribute macro parser / expander via asn1rs_model::proc_macro, .proto generator) on grammar-generated modules (proptest); rustc (cargo check) as oracle for C09; part a of C08/C16/C18"},
+            {"name": "vdiff", "path": "/verif/engine/vdiff", "serves_properties": ["C19"],
+             "kind_free_text": "runner built twice (default features / descriptive-deserialize-errors) that decodes a vector file and prints a result table; compared by vrt"},
         ],
         "checks": checks,
         "notes": "All checks: ./check <ID> <quick|thorough>; exit 0 held / 1 violation / 2 infrastructure. Known findings: /verif/KNOWN_FINDINGS.txt. Seeds: VERIF_SEED.",
